@@ -29,6 +29,7 @@ type C03Plan struct {
 	Seed     uint64    `json:"seed"`
 	Cfg      IngestCfg `json:"cfg"`
 	DupAt    int       `json:"dup_at"` // doctor: position of the planted duplicate
+	Stale    bool      `json:"stale"`  // ingest: damaged table index / profile left under the table's key are overwritten by a re-ingest
 }
 
 var c03Sizes = []int{0, 1, 2, 254, 255, 256, 509, 510, 511, 765, 766}
@@ -45,6 +46,7 @@ func init() {
 				p.N = r.Range(0, 800)
 			}
 			p.DupAt = r.Intn(800)
+			p.Stale = r.Chance(0.25)
 			return p
 		},
 		Exec: execC03,
@@ -113,6 +115,26 @@ func execC03(t *testing.T, raw json.RawMessage, res *Result) {
 		}
 		sum = run.Sum
 		res.stat("sim_steps", float64(run.Sched.Steps))
+		if p.Stale {
+			// derived objects keyed by the table sum were damaged (or written by an older
+			// version): committing the same data again must leave them sound
+			st.RawSet("tblidx/"+string(sum), []byte{0, 0, 0, 1, 0, 0, 0, 9})
+			st.RawSet("tblsum/"+string(sum), []byte("garbage"))
+			st.TakeMonErrs()
+			run2 := RunIngest(t, st, CSVText(cols, rows, ','), pk, p.Cfg)
+			if bubbleProblems(res, run2.Out, "re-ingest") {
+				return
+			}
+			if run2.Err != nil || !bytes.Equal(run2.Sum, sum) {
+				res.Violate("ingest-error", "re-ingest: err=%v sum %x vs %x", run2.Err, run2.Sum, sum)
+				return
+			}
+			if v, _ := st.Raw("tblsum/" + string(sum)); string(v) == "garbage" {
+				res.Violate("stale-derived-object", "re-ingesting the table left the damaged profile under tblsum/%x untouched", sum)
+				return
+			}
+			res.probe("stale_derived_overwritten", 1)
+		}
 	case "merge":
 		if len(pk) == 0 || len(rows) == 0 || p.NCols < 2 {
 			res.Skip("merge producer needs a keyed table with a non-key column")
